@@ -634,6 +634,11 @@ class Field(Criterion, JSON):
         if self.table is not None:
             yield from self.table.nodes_()
 
+    def __hash__(self) -> int:
+        # Field == Field builds a criterion (always truthy), so set/dict membership of fields is decided by the
+        # hash alone: it has to tell apart columns of the same name that belong to different tables.
+        return hash((self.name, getattr(self, "alias", None), self.table))
+
     @builder
     def replace_table(  # type:ignore[return]
         self, current_table: "Table" | None, new_table: "Table" | None
